@@ -383,10 +383,12 @@ class History:
     def in_overlay(self, name):
         return any(sc["type"] == "overlay" and name in sc["layer"] for sc in self.scopes)
 
-    def effective(self, name, extra=None):
+    def effective(self, name, extra=None, no_overlay=False):
         if extra is not None and name in extra:
             return extra[name]
         for sc in reversed(self.scopes):
+            if no_overlay and sc["type"] == "overlay":
+                continue
             if name in sc["layer"]:
                 return sc["layer"][name]
         return self.glob.get(name)
@@ -415,10 +417,10 @@ class History:
 
     # -- oracle ----------------------------------------------------------------------
 
-    def expected(self, extra=None, other_thread=False):
+    def expected(self, extra=None, other_thread=False, no_overlay=False):
         exp = {}
         for name in self.names(None if other_thread else extra):
-            c = self.glob.get(name) if other_thread else self.effective(name, extra)
+            c = self.glob.get(name) if other_thread else self.effective(name, extra, no_overlay)
             if c is None or c is MASK:
                 continue
             if c.get("emptylist"):
@@ -486,7 +488,8 @@ class History:
             if r2:
                 ok2 = peer in self.seen_since_scope and all(self.in_swap(k) or k in self.residue for k in r2)
                 if ok2:
-                    peer_view = self.expected(None, other_thread=not other_thread)
+                    # (a mapping built under an alias overlay is never cached)
+                    peer_view = self.expected(None, other_thread=not other_thread, no_overlay=True)
                     ok2 = all(V.same_string(peer_view.get(k, V.ABSENT), got.get(k))
                               for k in r2 if k not in self.residue)
             if ok2:
@@ -495,17 +498,15 @@ class History:
                 if r2:
                     findings.add(F2)
                 rest = {}
-        self.seen_since_scope.add(me)
         # which mapping may be sitting in Env's cache now (used only by the narrow predicates of F1 / F2): a
         # detype() under an alias overlay bypasses the cache, a non-empty per-command overlay drops it afterwards
         if not other_thread and any(sc["type"] == "overlay" for sc in self.scopes):
             pass
-        elif extra:
-            self.last_got = None
         else:
-            self.last_got = got
-        if F1 not in findings:
-            self.dirty.clear()
+            self.last_got = None if extra else got
+            self.seen_since_scope.add(me)
+            if F1 not in findings:
+                self.dirty.clear()      # the mapping was built afresh
         if not d:
             return
         detail = "%s: %s" % (what, "; ".join(
@@ -1424,7 +1425,7 @@ def main(run):
 
     open_ids = sorted(run.known_open)
     nw = 8 if run.tier == "quick" else 16
-    per_var = run.n(30, 600)
+    per_var = run.n(100, 2500)
     common.pool_map(run, __name__, "worker_a", [(run.seed, per_var, w, nw, open_ids) for w in range(nw)], procs=nw)
     total = run.n(2400, 200000)
     steps = run.n(30, 40)
